@@ -325,6 +325,17 @@ def deck():
     cell("setitem/properties/clash-with-sibling", ["prop", "z", enc([1]), "int", A, {}],
          ["prop", "z", enc([2]), "int", None, {}], ["setitem", A, "properties", 0, 15])
     cell("setitem/sections/attached-elsewhere", ["setitem", D, "sections", 1, C])
+    # deep trees: a chain of 140 nested Sections; making its top a child of its bottom must be refused by every route
+    N0 = len(BASE)
+    chain = [["sec", "deep0", "t", D, {}]] + [["sec", "deep%d" % k, "t", N0 + k - 1, {}] for k in range(1, 140)]
+    top, bottom, mid = N0, N0 + 139, N0 + 70
+    cell("deep-chain/append-cycle", *(chain + [["append", bottom, top]]))
+    cell("deep-chain/insert-cycle", *(chain + [["insert", bottom, 0, top]]))
+    cell("deep-chain/set_parent-cycle", *(chain + [["set_parent", top, bottom]]))
+    cell("deep-chain/extend-cycle", *(chain + [["extend", bottom, [X, top]]]))
+    cell("deep-chain/setitem-cycle", *(chain + [["sec", "leaf", "t", bottom, {}], ["setitem", bottom, "sections", 0, top]]))
+    cell("deep-chain/mid-cycle", *(chain + [["append", bottom, mid], ["set_parent", mid, bottom]]))
+    cell("deep-chain/move-subtree", *(chain + [["append", D, mid], ["clone", top, True, False]]))
     # a refused operation followed by a rename to a sibling's name (the refusal must not have detached anything)
     cell("refused-then-renamed/remove-not-a-child", ["remove", B, C], ["rename", C, enc("b")])
     cell("refused-then-renamed/prop-remove-not-a-child", ["prop", "k", enc([1]), "int", A, {}], ["remove", B, P], ["rename", P, enc("k")])
@@ -486,7 +497,7 @@ VALUE_POOL = {
     "float": [1.5, "2.5", 1, "x", "", None, [1.0, "2"], [1.5, "x"], "[1.5, 2]", "nan", "1e400", True, "1,5", dt.time(1, 2, 3), 10 ** 400, [1.5, 10 ** 400],
               float("inf"), "-inf", -0.0, 0.1 + 0.2, 1.0 / 3, 1234567.1234567891, [2.0 / 3, 1e-17 + 1e-33], 5e-324, 1.7976931348623157e308],
     "boolean": [True, False, "true", "False", "1", "0", "t", "f", 1, 0, 2, "yes", "", None, [True, "false"], "x", [True, "x"]],
-    "string": ["s", "", " ", 5, 1.5, True, None, ["a", "b"], "[a, b]", "a\nb", ["x", 5], "[", "]", "[]", {"k": 1}, [], [[1, 2]],
+    "string": ["s", u"zw\u00f6lf", "", " ", 5, 1.5, True, None, ["a", "b"], "[a, b]", "a\nb", ["x", 5], "[", "]", "[]", {"k": 1}, [], [[1, 2]],
                (1, 2), [(1, 2)], [{"a": 1}], {1, 2}],
     "text": ["line1\nline2", "s", "", 5, None, ["a", "b\nc"]],
     "url": ["http://x", "not a url", 5, ""], "person": ["A. B.", 7, ""],
@@ -547,6 +558,10 @@ def value_deck():
                                                       ["set_dtype", 0, d2], ["reassign_values", 0]]))
             t.append(("dtype=/empty/%s->%s" % (dtype, d2), [["prop", "p", enc(None), dtype, None, {}],
                                                             ["set_dtype", 0, d2]]))
+        # the same with a name and values outside ASCII (what the library prints about them must not matter)
+        for d2 in DTYPE_INPUTS[:14]:
+            t.append(("dtype=/non-ascii/%s->%s" % (dtype, d2), [["prop", u"gr\u00f6\u00dfe \u65e5\u672c", enc([u"zw\u00f6lf", "13"] if dtype in ("string", "text") else _good(dtype)),
+                                                                 dtype, None, {}], ["set_dtype", 0, d2], ["reassign_values", 0]]))
         t.append(("reassign/%s" % dtype, [["prop", "p", enc(_good(dtype)), dtype, None, {}], ["reassign_values", 0],
                                           ["clone", 0, True, False], ["reassign_values", 1]]))
         for d2 in DTYPES:
